@@ -904,8 +904,36 @@ pub fn cmd_batch(args: &[String]) -> i32 {
                     PROPERTY, path, f.assert_id, f.case, build_config(), f.scenario, f.observed
                 ));
             } else {
-                println!("HARNESS-ERROR exotic failure {} / {} does not replay", f.case, f.scenario);
-                exit_code = 2;
+                // neither the case nor the lane alone fails in a fresh process: the code under test
+                // carried state over from the main lanes. Replay the whole history: every run in
+                // index order on one thread, then the exotic lane.
+                let doc = json!({
+                    "property": PROPERTY,
+                    "build_configuration": build_config(),
+                    "lane": "history",
+                    "seed": seed,
+                    "upto": total - 1,
+                    "then_exotic": true,
+                    "assert_id": f.assert_id,
+                    "observed": f.observed,
+                    "note": "an exotic-lane case failed in the batch but passes in a fresh process: the violation depends on calls made earlier in the same process",
+                    "how_to_replay": format!("/verif/check C20 --replay {}", path),
+                });
+                let exe = std::env::current_exe().unwrap();
+                let ok2 = std::fs::write(&path, serde_json::to_string_pretty(&doc).unwrap()).is_ok()
+                    && matches!(std::process::Command::new(exe).arg("replay").arg(&path).output(), Ok(o) if o.status.code() == Some(1));
+                if ok2 {
+                    violations += 1;
+                    violation_lines.push(format!(
+                        "VIOLATION property={} replay={}  [{} on Decomposed with {} (exotic lane, {} build): (history-dependent) {}: {}]",
+                        PROPERTY, path, f.assert_id, f.case, build_config(), f.scenario, f.observed
+                    ));
+                } else if violations > 0 {
+                    println!("NOTE exotic failure {} / {} did not replay on its own; the violations above already stand", f.case, f.scenario);
+                } else {
+                    println!("HARNESS-ERROR exotic failure {} / {} does not replay", f.case, f.scenario);
+                    exit_code = 2;
+                }
             }
         }
     }
@@ -1074,6 +1102,15 @@ pub fn cmd_replay(args: &[String]) -> i32 {
                 }
             }
         }
+        if doc["then_exotic"].as_bool() == Some(true) {
+            let rep = crate::exotic::run_all(None);
+            if let Some(f) = rep.failures.iter().find(|f| f.assert_id == want_id) {
+                println!("history replay, exotic lane after runs 0..={}: {} / {}: {} {}", upto, f.case, f.scenario, f.assert_id, f.observed);
+                println!("REPRODUCED assert={} (sequential history)", f.assert_id);
+                println!("VIOLATION property={} replay={}", PROPERTY, path);
+                return 1;
+            }
+        }
         println!("NOT-REPRODUCED no run in 0..={} fails {} when executed sequentially on this tree", upto, want_id);
         return if exact { 2 } else { 0 };
     }
@@ -1088,6 +1125,14 @@ pub fn cmd_replay(args: &[String]) -> i32 {
                 println!("VIOLATION property={} replay={}", PROPERTY, path);
                 return 1;
             }
+        }
+        // the case alone passes: the failure may depend on calls made earlier; run the whole lane
+        let rep_all = crate::exotic::run_all(None);
+        if let Some(f) = rep_all.failures.iter().find(|f| f.assert_id == want_id) {
+            println!("exotic replay (whole lane, in order): {} / {}: {} {}", f.case, f.scenario, f.assert_id, f.observed);
+            println!("REPRODUCED assert={} (history-dependent)", f.assert_id);
+            println!("VIOLATION property={} replay={}", PROPERTY, path);
+            return 1;
         }
         println!("NOT-REPRODUCED exotic case {:?} passes on this tree ({} evaluations)", case, rep.evaluations);
         return if exact { 2 } else { 0 };
